@@ -49,6 +49,23 @@ class Recorder(BoboDeciderSubscriber):
             self.published.append([(r, r.to_json_str()) for r in list(completed) + list(halted) + list(updated)])
 
 
+class Bomb(BoboDeciderSubscriber):
+    """a subscriber AFTER the recorder that fails on the notifications carrying a finished run, and on every fifth other one (a
+    sink that is full, a link object that was closed).  The caller of update() / on_distributed_update() gets the
+    exception and carries on: what the decider did for the event is done, the subscribers before this one have been
+    told -- once -- and the next notification is about the next event only."""
+
+    def __init__(self):
+        self.armed, self.fired, self.count = False, False, 0
+
+    def on_decider_update(self, completed, halted, updated, local):
+        self.count += 1
+        if self.armed and (completed or halted or self.count % 5 == 0):
+            self.fired = True
+            from bobocep import BoboError
+            raise (RuntimeError, BoboError, OSError, KeyError)[self.count % 4]('the sink is full')
+
+
 class RealDecider:
     def __init__(self, phens, cache, phenomena=None):
         self.phens = phens
@@ -56,6 +73,8 @@ class RealDecider:
         self.rec = Recorder()
         self.dec = BoboDecider(self.phenomena, CounterGen('e'), CounterGen('r'), max_cache=cache)
         self.dec.subscribe(self.rec)
+        self.bomb = Bomb()
+        self.dec.subscribe(self.bomb)
         self.rec.dec = self.dec
         # complex / action events of the streams are named after the first pattern of this configuration (predlang.mk_event)
         pl.FEEDBACK['names'] = (phens[0][0], phens[0][1][0]['name']) if phens and phens[0][1] else None
@@ -73,11 +92,14 @@ class RealDecider:
     def ev(self, eid, ts, kind, data) -> str:
         """one update() with this event queued."""
         n0 = len(self.rec.notifs)
+        self.bomb.fired = False
         try:
             self.dec.on_receiver_update(pl.mk_event(eid, ts, kind, data))
             changed = self.dec.update()
         except Exception:
-            return 'X'
+            if not self.bomb.fired:
+                return 'X'
+            changed = True          # (a notification went out: there was a change; the failing sink is the harness's own)
         new = self.rec.notifs[n0:]
         if len(new) > 1:
             return 'multiple-notifications'
@@ -88,11 +110,13 @@ class RealDecider:
 
     def rem(self, comp: List[str], halt: List[str], upd: List[str]) -> str:
         n0 = len(self.rec.notifs)
+        self.bomb.fired = False
         try:
             self.dec.on_distributed_update([pl.parse_rec(r) for r in comp], [pl.parse_rec(r) for r in halt],
                                            [pl.parse_rec(r) for r in upd])
         except Exception:
-            return 'X'
+            if not self.bomb.fired:
+                return 'X'
         new = self.rec.notifs[n0:]
         if len(new) != 1:
             return f'{len(new)}-notifications'
